@@ -86,6 +86,7 @@ type Eval struct {
 	loopOld *State            // state at entry of the loop whose invariant is being evaluated (lold)
 	overlay map[ssa.Value]Val // loop-cut overlay to install while this evaluator runs
 	exitCtx bool              // evaluating ensures / exit-ghost: a parameter name means its entry value
+	gfAbs   map[string]Expr   // refinement check: ghost fields read through these abstraction expressions (over `self`)
 }
 
 func (ex *Exec) newEval(st, old *State) *Eval {
@@ -1090,6 +1091,21 @@ func (ev *Eval) applyPred(pd *PredDef, e ECall) TV {
 		return TV{T: "true", Ty: vtBool}
 	}
 	if pd.GField {
+		if abs, ok := ev.gfAbs[pd.Name]; ok {
+			// refinement check: the ghost field is read through its abstraction function over the concrete state
+			a := ev.rval(ev.eval(e.Args[0]))
+			sub := *ev
+			sub.vars = map[string]TV{}
+			for k, v := range ev.vars {
+				sub.vars[k] = v
+			}
+			sub.vars["self"] = a
+			sub.depth = ev.depth + 1
+			if ao, ok := ev.gfAbs["@old:"+pd.Name]; ok && ev.inOld {
+				return sub.eval(ao)
+			}
+			return sub.eval(abs)
+		}
 		rt := vtInt
 		if pd.Ret != nil {
 			rt = ev.resolveType(*pd.Ret)
